@@ -94,9 +94,36 @@ def or_of(st, c, a, b):
     return simp(c) == simp(("or", a, b))
 
 
+def merge_fn(ctx):
+    """The per-list merge helper: `StatisticInfo::merge_levels`, or — after a rename / move — the local function
+    StatisticInfo::merge calls that reaches LevelDistribution::merge."""
+    F = ctx.facts
+    if F.body(MLEVELS) is not None:
+        return MLEVELS
+    from engine import cfg
+    b = F.body(SIMERGE)
+    if b is None:
+        return None
+    out = []
+    for blk in b["blocks"]:
+        f = cfg.callee_of(blk["term"])
+        if not f or blk["cleanup"]:
+            continue
+        p = f.get("resolved") or f["path"]
+        if p in F.bodies and not F.body(p)["derived"] and p not in out and p != LDMERGE:
+            if LDMERGE in set(ctx.cg.local_reachable([p])):
+                out.append(p)
+    return out[0] if len(out) == 1 else None
+
+
 def check(ctx):
     F, R = ctx.facts, ctx.report
-    for p in (NEW, LDMERGE, ADD, COLLECT1, SIMERGE, MLEVELS, MLCLOS, COLLECT):
+    global MLEVELS, MLCLOS
+    mf = merge_fn(ctx)
+    if mf is not None and mf != MLEVELS:
+        R.notes.append("the per-list merge helper is %s" % mf)
+        MLEVELS, MLCLOS = mf, mf + "::{closure#0}"
+    for p in (NEW, LDMERGE, ADD, COLLECT1, SIMERGE, MLEVELS, COLLECT):
         if F.body(p) is None:
             R.violation("ANCHOR", "missing|" + p, "anchor function %s not found" % p, kind="ANCHOR-MISSING")
             return
@@ -367,7 +394,15 @@ def merge_levels(ctx):
     from engine import cfg
     from rules import lib_loop
     is_act = lambda f: (f.get("resolved") or f["path"]) == LDMERGE or f["path"] == LDMERGE or re.search(r"Vec::<.*>::push$", f["path"]) is not None
-    cands = [(MLEVELS, F.body(MLEVELS))] + [(p, F.body(p)) for p in sorted(F.bodies) if p.startswith(MLEVELS + "::{closure")]
+    # the per-entry code: the function (or closure) reachable from StatisticInfo::merge that merges distributions
+    if F.body(MLEVELS) is not None:
+        cands = [(MLEVELS, F.body(MLEVELS))] + [(p, F.body(p)) for p in sorted(F.bodies) if p.startswith(MLEVELS + "::{closure")]
+        cands = [(p, b_) for p, b_ in cands if any(cfg.callee_of(blk["term"]) and is_act(cfg.callee_of(blk["term"])) for blk in b_["blocks"] if not blk["cleanup"])] or cands
+    else:
+        reach = [p for p in sorted(ctx.cg.local_reachable([SIMERGE])) if F.body(p) is not None and not F.body(p)["derived"] and p != LDMERGE and not p.startswith(LDMERGE + "::")]
+        reach += [p for p in sorted(F.bodies) if any(p.startswith(r + "::{closure") for r in reach) and p not in reach]
+        calls_merge = lambda b: any(cfg.callee_of(blk["term"]) and ((cfg.callee_of(blk["term"]).get("resolved") or cfg.callee_of(blk["term"])["path"]) == LDMERGE or cfg.callee_of(blk["term"])["path"] == LDMERGE) for blk in b["blocks"] if not blk["cleanup"])
+        cands = [(p, F.body(p)) for p in reach if calls_merge(F.body(p))]
     region = None
     for path, body in cands:
         acts = [bi for bi, blk in enumerate(body["blocks"]) if not blk["cleanup"] and cfg.callee_of(blk["term"]) and is_act(cfg.callee_of(blk["term"]))]
